@@ -340,7 +340,28 @@ common::register! {
     t_nack_unit_7 = nack_unit::<_, 7> => 9,
 }
 
+/// The FIR map has one sequence per SSRC: adding the same SSRC again replaces its sequence
+/// (`add_ssrc` documents the update); the packet carries exactly {ssrc -> last sequence}.
+pub fn fir_readd<S: Src>(s: &mut S) {
+    let ssrc = 0x1234_5678u32;
+    let (s1, s2) = (s.u8(), s.u8());
+    let f = Fir::builder().add_ssrc(ssrc, s1).add_ssrc(ssrc, s2);
+    let b = PayloadFeedback::builder(&f).sender_ssrc(1).media_ssrc(0);
+    let mut buf = [0xA5u8; 24];
+    let n = b.write_into(&mut buf).expect("FIR feedback rejected");
+    assert!(n == 20, "re-adding an SSRC must not add an entry");
+    let p = PayloadFeedback::parse(&buf[..n]).expect("own parser rejects the built FIR");
+    let fir = p.parse_fci::<Fir>().expect("FIR FCI does not decode");
+    let mut it = fir.entries();
+    let e = it.next().expect("entry missing");
+    assert!(e.ssrc() == ssrc && e.sequence() == s2, "FIR map must carry the last sequence of the SSRC");
+    assert!(it.next().is_none());
+    vcover!(s1 != s2, "sequence replaced");
+    common::forget(f);
+}
+
 common::register_hashmap! {
+    q_fir_readd = fir_readd => 4,
     q_fir_empty = fir_empty_main => 3,
     kf_c05_empty_fir = fir_empty => 3,
     q_fir_1 = fir::<_, true> => 5,
